@@ -24,10 +24,12 @@ STEPS = [
     {"op": "list", "path": "/d", "n": 3, "seed": "c12c", "split": "random"},
     {"op": "pull", "path": "/f", "size": 5000, "seed": "c12d", "rec": "random", "split": "blocks", "dest": "bytesio", "cb": None},
     {"op": "push", "path": "/p", "size": 6000, "seed": "c12e", "src": "bytesio", "mode": 0o100644, "mtime": 11, "cb": None},
-    # (the file has grown since the device answered the size query: STAT says 100 bytes, RECV delivers 300)
-    {"op": "pull", "path": "/g", "size": 300, "seed": "c12f", "rec": "one", "split": "random", "dest": "bytesio", "cb": "ok", "stat_size": 100},
+    {"op": "pull", "path": "/g", "size": 300, "seed": "c12f", "rec": "one", "split": "whole", "dest": "bytesio", "cb": "ok"},
     {"op": "streaming_shell", "cmd": "b", "decode": False, "cls": "ascii", "seed": "c12g", "take": 1},
     {"op": "exec_out", "cmd": "c", "decode": False, "cls": "random", "seed": "c12h", "take": None},
+    # (appended, so that the transport-call indices of the steps above stay what they were) a file that has grown since the device answered the size query:
+    # STAT says 100 bytes, RECV delivers 300, in random pieces
+    {"op": "pull", "path": "/h", "size": 300, "seed": "c12j", "rec": "one", "split": "random", "dest": "bytesio", "cb": "ok", "stat_size": 100},
 ]
 
 
